@@ -3,7 +3,7 @@
     receivers included) and re-encodes to the same list. For all receiver decoders. *)
 From V.Lib Require Import Base Hex.
 From V.Gen Require Import C11Consts.
-From V.C11 Require Import Model Spec Legacy Extra ProofsAddr ProofsCodec ProofsDecode.
+From V.C11 Require Import Model Spec Legacy Extra ProofsAddr ProofsCodec ProofsDecode ProofsNt.
 From Coq Require Import ZifyBool.
 Local Open Scope N_scope.
 
@@ -255,3 +255,184 @@ Proof.
 Qed.
 
 End Top.
+
+(* ------------------------------------------------------------------------------------------ *)
+(** * the profile without `orchard` *)
+
+Definition lift_ns (x : item) (r : outcome uaddr unit) : outcome uaddr unit :=
+  match r with
+  | Ok a => Ok (mkUaddr (uad_o a) (uad_s a) (uad_t a) (x :: uad_unknown a))
+  | Err e => Err e
+  | Panic => Panic
+  end.
+Definition with_o (o : option bytes) (r : outcome uaddr unit) : outcome uaddr unit :=
+  match r with
+  | Ok a => Ok (mkUaddr o (uad_s a) (uad_t a) (uad_unknown a))
+  | Err e => Err e
+  | Panic => Panic
+  end.
+(** what the build without `orchard` makes of the main profile's result *)
+Definition back_ns (r : outcome uaddr unit) : outcome uaddr unit :=
+  match r with
+  | Ok a => Ok (mkUaddr None (uad_s a) (uad_t a) (oapp (option_map (pair 3) (uad_o a)) ++ uad_unknown a))
+  | Err e => Err e
+  | Panic => Panic
+  end.
+
+Section Ns.
+Variable dsa : bytes -> ores.
+
+Lemma ns_acc : forall l s t unk x,
+  ua_loop_ns dsa l s t (unk ++ [x]) = lift_ns x (ua_loop_ns dsa l s t unk).
+Proof.
+  induction l as [|[c d] l IH]; intros s t unk x; cbn [ua_loop_ns].
+  - cbn. rewrite rev_app_distr. reflexivity.
+  - destruct (tc_of_u32 c) as [[]|];
+      try (change ((c, d) :: unk ++ [x]) with (((c, d) :: unk) ++ [x]); apply IH); try apply IH.
+    destruct (dsa d); try reflexivity. apply IH.
+Qed.
+Lemma ns_acc0 l s t (x : item) : ua_loop_ns dsa l s t [x] = lift_ns x (ua_loop_ns dsa l s t []).
+Proof. exact (ns_acc l s t [] x). Qed.
+
+Lemma tc_orchard c : tc_of_u32 c = Some TcOrchard -> c = 3.
+Proof.
+  unfold tc_of_u32. destruct (c =? 0); [discriminate|]. destruct (c =? 1); [discriminate|].
+  destruct (c =? 2); [discriminate|]. destruct (c =? 3) eqn:E; [intros _; lia|].
+  destruct (c <=? MAX_TYPECODE); discriminate.
+Qed.
+
+Lemma ns_no3 : forall l o s t unk,
+  Forall (fun it : item => fst it <> 3) l ->
+  ua_loop OSome dsa l o s t unk = with_o o (ua_loop_ns dsa l s t unk).
+Proof.
+  induction l as [|[c d] l IH]; intros o s t unk F; cbn [ua_loop ua_loop_ns]; [reflexivity|].
+  inversion F as [|? ? Fc Fl]; subst. cbn [fst] in Fc.
+  destruct (tc_of_u32 c) as [[]|] eqn:E; try (apply IH; exact Fl).
+  - destruct (dsa d); try reflexivity. apply IH; exact Fl.
+  - exfalso. apply Fc. apply tc_orchard. exact E.
+Qed.
+
+Lemma ns_o_none : forall l s t unk a, ua_loop_ns dsa l s t unk = Ok a -> uad_o a = None.
+Proof.
+  induction l as [|[c d] l IH]; intros s t unk a E; cbn [ua_loop_ns] in E.
+  - inversion E; reflexivity.
+  - destruct (tc_of_u32 c) as [[]|]; try (eapply IH; exact E).
+    destruct (dsa d); try discriminate. eapply IH; exact E.
+Qed.
+
+Lemma back_with_none r :
+  (forall a, r = Ok a -> uad_o a = None) -> back_ns (with_o None r) = r.
+Proof.
+  destruct r as [[o s t u]| |]; try reflexivity. intros H. specialize (H _ eq_refl). cbn in H. subst o.
+  reflexivity.
+Qed.
+
+Lemma ns_bridge : forall l s t prev,
+  asc prev l ->
+  ua_loop_ns dsa l s t [] = back_ns (ua_loop OSome dsa l None s t []).
+Proof.
+  induction l as [|[c d] l IH]; intros s t prev A; [reflexivity|].
+  cbn [asc] in A. destruct A as [_ A]. pose proof (asc_above _ _ A) as F.
+  destruct (N.lt_trichotomy c 3) as [L|[->|G]].
+  - (* a known item below Orchard: both loops take the same step, nothing is kept *)
+    cbn [ua_loop ua_loop_ns]. unfold tc_of_u32.
+    destruct (c =? 0) eqn:E0; [apply (IH _ _ (Some c)); exact A|].
+    destruct (c =? 1) eqn:E1; [apply (IH _ _ (Some c)); exact A|].
+    destruct (c =? 2) eqn:E2; [|lia].
+    destruct (dsa d); try reflexivity. apply (IH _ _ (Some c)); exact A.
+  - cbn [ua_loop ua_loop_ns]. change (tc_of_u32 3) with (Some TcOrchard). cbv iota.
+    rewrite ns_no3 by (eapply Forall_impl; [|exact F]; cbn beta; intros; lia).
+    rewrite ns_acc0. destruct (ua_loop_ns dsa l s t []) as [a| |] eqn:E; try reflexivity.
+    cbn. rewrite (ns_o_none _ _ _ _ _ E). reflexivity.
+  - rewrite ns_no3.
+    + symmetry. apply back_with_none. intros a E. eapply ns_o_none; exact E.
+    + constructor; [cbn; lia|]. eapply Forall_impl; [|exact F]. cbn beta. intros; lia.
+Qed.
+
+Lemma ua_loop_ns_never_panics : forall l s t unk,
+  (forall x, dsa x <> OPanic) -> ua_loop_ns dsa l s t unk <> Panic.
+Proof.
+  induction l as [|[c d] l IH]; intros s t unk Hs; cbn [ua_loop_ns]; [discriminate|].
+  destruct (tc_of_u32 c) as [[]|]; try (apply IH; assumption).
+  pose proof (Hs d) as Hd. destruct (dsa d); [apply IH; assumption | discriminate | congruence].
+Qed.
+
+(** sorting the item list of an address of this profile *)
+Lemma ns_sort (t : option taddr) (s o : option bytes) (u : list item) :
+  unknown_ok u ->
+  sort_items ((oapp (option_map (pair 3) o) ++ u) ++ oapp (option_map (pair 3) None)
+              ++ oapp (option_map (pair 2) s) ++ oapp (option_map taddr_item t))
+  = oapp (option_map taddr_item t) ++ oapp (option_map (pair 2) s) ++ oapp (option_map (pair 3) o) ++ u.
+Proof.
+  intros U. unfold sort_items. cbn [option_map oapp app]. rewrite fold_right_app, fold_right_app.
+  assert (HK : @fold_right (list item) (N * bytes) insert (@nil item)
+                 (oapp (option_map (pair 2) s) ++ oapp (option_map taddr_item t))
+               = oapp (option_map taddr_item t) ++ oapp (option_map (pair 2) s))
+    by (destruct s, t as [[h|h]|]; reflexivity).
+  assert (SU := sort_unknown (oapp (option_map taddr_item t) ++ oapp (option_map (pair 2) s)) u 3 U).
+  unfold item in *. rewrite HK, SU
+    by (intros y Hy; destruct t as [[h|h]|], s; cbn in Hy;
+        repeat (destruct Hy as [<-|Hy]; [cbn; lia|]); destruct Hy).
+  destruct o as [o|]; cbn [oapp option_map fold_right app]; [|rewrite <- app_assoc; reflexivity].
+  rewrite app_assoc. rewrite insert_skip.
+  - rewrite insert_head; [rewrite <- !app_assoc; reflexivity|].
+    destruct u as [|[c d] u]; [exact I|]. destruct U as (U1 & _). cbn. lia.
+  - intros y Hy. destruct t as [[h|h]|], s; cbn in Hy;
+      repeat (destruct Hy as [<-|Hy]; [cbn; lia|]); destruct Hy.
+Qed.
+
+Theorem ua_ns_sound l a :
+  addr_container l -> ua_try_from_ns dsa l = Ok a ->
+  uad_o a = None
+  /\ exists s1, rel dsa s1 (uad_s a) /\ recv (uad_t a) s1 None (uad_unknown a) = l
+  /\ ua_to_items a = Ok (ua_receivers a).
+Proof.
+  intros C H. pose proof C as [V T].
+  assert (A : asc None l).
+  { unfold try_from_items_internal in T. destruct (tfi_loop l None true) as [[|]| |] eqn:TL; try discriminate.
+    apply asc_a_asc. eapply tfi_loop_sound_a; exact TL. }
+  unfold ua_try_from_ns in H. rewrite (ns_bridge l None None None A) in H.
+  destruct (ua_loop OSome dsa l None None None []) as [am| |] eqn:M; try discriminate.
+  cbn [back_ns] in H. inversion H; subst a. cbn [uad_o uad_s uad_t uad_unknown].
+  destruct (ua_try_from_sound OSome dsa l am C M) as (o1 & s1 & R1 & R2 & E & U).
+  assert (o1 = uad_o am) as -> by (destruct o1, (uad_o am); cbn in R1; try contradiction; [inversion R1|]; reflexivity).
+  split; [reflexivity|]. exists s1. split; [exact R2|]. split.
+  - rewrite <- E. unfold recv. cbn [oapp option_map app]. reflexivity.
+  - unfold ua_to_items, to_container, try_from_items, ua_items, ua_receivers.
+    cbn [uad_o uad_s uad_t uad_unknown].
+    rewrite ns_sort by exact U.
+    (* the sorted list has the typecodes of l, which the container accepted *)
+    assert (Mf : map fst (oapp (option_map taddr_item (uad_t am)) ++ oapp (option_map (pair 2) (uad_s am))
+                          ++ oapp (option_map (pair 3) (uad_o am)) ++ uad_unknown am) = map fst l).
+    { rewrite <- E. unfold recv. rewrite !map_app. apply rel_some_iff in R2.
+      destruct (uad_s am), s1; cbn in R2; try discriminate; reflexivity. }
+    unfold try_from_items_internal in *. pose proof (tfi_loop_fst _ _ None true Mf) as Q.
+    destruct (tfi_loop l None true) as [[|]| |]; try discriminate.
+    destruct (tfi_loop _ None true) as [x| |]; try contradiction. subst x.
+    cbn [oapp option_map app]. reflexivity.
+Qed.
+
+(** decode -> encode is the identity on the receiver list; no Orchard receiver is reported *)
+Theorem ua_ns_roundtrip l a :
+  addr_container l -> ua_try_from_ns dsa l = Ok a -> canon_on dsa (uad_s a) ->
+  uad_o a = None /\ ua_receivers a = l /\ ua_to_items a = Ok l.
+Proof.
+  intros C H Cs. destruct (ua_ns_sound l a C H) as (Ko & s1 & R2 & E & RE).
+  apply rel_canon in R2; [|exact Cs]. subst s1.
+  assert (X : ua_receivers a = l) by (unfold ua_receivers; rewrite Ko; exact E).
+  split; [exact Ko|]. split; [exact X|]. rewrite RE, X. reflexivity.
+Qed.
+
+Lemma ua_ns_err l :
+  asc None l -> ua_try_from_ns dsa l = Err tt ->
+  existsb (fun it : item => (fst it =? 2) && match dsa (snd it) with ONone => true | _ => false end) l = true.
+Proof.
+  intros A H. unfold ua_try_from_ns in H. rewrite (ns_bridge l None None None A) in H.
+  destruct (ua_loop OSome dsa l None None None []) as [am|[]|] eqn:M; try discriminate.
+  pose proof (ua_loop_err OSome dsa l None None None [] M) as X.
+  rewrite existsb_exists in *. destruct X as (it & I1 & I2). exists it. split; [exact I1|].
+  apply orb_true_iff in I2. destruct I2 as [I2|I2]; [|exact I2].
+  apply andb_true_iff in I2. destruct I2 as [_ I2]. discriminate I2.
+Qed.
+
+End Ns.
